@@ -8,6 +8,22 @@ PY = "/venv/bin/python"
 
 # id -> (technique, level text, level note, design ref)
 CHECKS = {
+    "C18": ("exhaustive enumeration of all small matrices + Hypothesis (4 distributions, collect-then-shrink) vs. brute-force span/kernel oracle",
+            "All 35 978 binary matrices with m*n <= 12 are enumerated in every run and larger shapes (up to 40 x 28, the shapes the "
+            "layer search uses) are sampled by Hypothesis; outputs are compared with an independent bitmask elimination that is itself "
+            "cross-checked by brute-force span/kernel enumeration. Decides the property on the enumerated domain, samples beyond it.",
+            "Trusted: numpy integer arithmetic; own elimination (validated by brute force on every small case).",
+            "DESIGN.md §4 C18"),
+    "C19": ("exhaustive enumeration of all graphs x vertices, class ids and codec indices vs. adjacency-bitmask oracle",
+            "Every graph on 2..6 vertices, every vertex, every class id and every grouping index is visited in every run; finite domain, "
+            "complete enumeration, independent re-implementation of the documented bit layout and of local complementation.",
+            "Trusted: adjacency-bitmask oracle (self-tested); in the quick tier the library classifier is re-run on every n<=5 graph and 1/8 of the n=6 graphs.",
+            "DESIGN.md §4 C19"),
+    "C09": ("exhaustive enumeration of all 20 MUB families x bases x group elements vs. Pauli-algebra oracle and gate counter",
+            "All 744 bases of all 20 configurations and all 2^n elements of each are enumerated in every run: validity, partition of the "
+            "4^n-1 Paulis, diagonalisation by the index-aligned circuit, info dictionary vs. recount, cost vs. the library's readout circuit.",
+            "Trusted: bitmask Pauli algebra (validated against dense matrices each run), own gate counter.",
+            "DESIGN.md §4 C09"),
     "C17": ("exhaustive enumeration of all table lines + differential parser + dense-simulation / LC-orbit oracle",
             "Every line of every stabilizer table on disk is visited in every run (exhaustive=true); each is checked "
             "against a from-scratch tokenizer, dense simulator, LC-orbit oracle and gate counter. Exhaustive over a "
